@@ -14,6 +14,7 @@ import Driver.LenP
 import Driver.MixP
 import Driver.StoreP
 import Driver.ErrP
+import Driver.SmallP
 import Driver.RefP
 import Driver.InlP
 import Driver.CcP
@@ -50,6 +51,9 @@ def handle (line : String) : String :=
   | "mixed" :: args => Driver.MixP.handle args
   | "store" :: args => Driver.StoreP.handle args
   | "errval" :: args => Driver.ErrP.handle args
+  | "normcolor" :: args => Driver.SmallP.colorHandle args
+  | "dedup" :: args => Driver.SmallP.dedupHandle args
+  | "fonttags" :: args => Driver.SmallP.tagsHandle args
   | "textflow" :: args => Driver.MixP.textHandle args
   | "textvoid" :: args => Driver.MixP.voidHandle args
   | "width" :: args => Driver.WidthP.handle args
